@@ -134,9 +134,10 @@ def set_cli_args(argument_parser):
 {before}    argument_parser.add_argument({args})
 {after}    return argument_parser
 '''
-ARGPARSE_NEIGHBOURS = ["    argument_parser.add_argument('--other', type=int, help='Another one.', default=3)\n",
-                       "    argument_parser.add_argument('--flag', type=bool, help='A flag.', required=True)\n",
-                       "    argument_parser.add_argument('--name', help='The name. Defaults to anon')\n"]
+# neighbouring arguments (their help texts announce nothing, so that a failure is always about the point's own argument)
+ARGPARSE_NEIGHBOURS = ["    argument_parser.add_argument('--vg_other', type=int, help='Another one.', default=3)\n",
+                       "    argument_parser.add_argument('--vg_flag', type=bool, help='A flag.', required=True)\n",
+                       "    argument_parser.add_argument('--vg_name', help='The name.', default='anon')\n"]
 
 
 def _type_kw(rng, v):
